@@ -183,24 +183,8 @@ def slurmParallel (procs nodes : Val) (addl : Dict) : Str :=
   let args := if c.truthy then args ++ ["-c".toList, c.pyStr] else args
   joinSp args
 
-/-- does `a * b` of two raw Python values raise?  (`int*str` repeats the string;
-`str*str` and anything with `None` raise `TypeError`); result kind: `true` = str -/
-def mulKind : Option Bool → Val → Option Bool
-  | none, _ => none
-  | _, .none => none
-  | some false, .str _ => some true
-  | some false, _ => some false
-  | some true, .str _ => none
-  | some true, _ => some true
-
-def kindOf : Val → Option Bool
-  | .none => none
-  | .str _ => some true
-  | _ => some false
-
 /-- LSF: `jsrun --nrs <procs> -b <bind> [-g gpus] [-B bind gpus] -a .. -r .. -c ..`;
-the consistency checks only log, but their conversions and log arguments are
-evaluated and can raise -/
+the consistency checks only log, but their conversions are evaluated and can raise -/
 def lsfParallel (procs nodes : Val) (addl : Dict) : Except PErr Str := do
   let rsPerNode := getD addl "rs per node" (.int 1)
   let tasksPerRs := getD addl "tasks per rs" (.int 1)
@@ -208,9 +192,6 @@ def lsfParallel (procs nodes : Val) (addl : Dict) : Except PErr Str := do
   let r ← rsPerNode.toInt
   let n ← nodes.toInt
   let t ← tasksPerRs.toInt
-  if p > r * n * t then
-    -- argument `rs_per_node*nodes*tasks_per_rs` of the log call, on the raw values
-    if (mulKind (mulKind (kindOf rsPerNode) nodes) tasksPerRs).isNone then .error .typeError
   let rsTasks := if nodes.truthy then r * n * t else r * t
   if !(p > rsTasks) && rsTasks == 0 then .error .zeroDivision
   let args := ["jsrun".toList, "--nrs".toList, procs.pyStr, "-b".toList,
